@@ -1,6 +1,7 @@
 mod catalog;
 mod io;
 mod mem;
+mod portable;
 mod replay;
 mod shape;
 
